@@ -47,6 +47,34 @@ CHECKS = {
    'Multiset of (warning kind, name) from the binary\'s stderr equals the multiset computed from the AST for the target shell; locations are occurrences of the name; exit 0; script identical to that of the grammar without its unused definitions.',
    '"refers to" counts references from any statement.',
    'runtime monitoring: multiset oracle + metamorphic monitor on warnings'),
+ 'C04': ('translation_validation',
+   'Per compiled (grammar, shell): the binary\'s script must equal byte for byte the script cgprobe gets from the same library calls next to the automaton dump; its tables are read back (bash: RETURN-trap dump of the locals as bash decoded them; fish/zsh/pwsh: independent readers) and compared entry by entry with that automaton, nested automata and shared shape functions included. KF-B consequences are known findings.',
+   'fish/zsh/pwsh are not installed: their table syntax is read by cgv/readers.py, their control code is not executed.',
+   'runtime monitoring: table-by-table agreement monitor between emitted scripts and the dumped automaton'),
+ 'C07': ('exploration',
+   'Strings over the whole admissible character set are placed as literals, within-word items and descriptions; all four scripts of the real binary are decoded with independent implementations of each shell\'s double-quote rules (set equality with the grammar\'s strings, nothing expandable), and bash is executed: bash -n, exact candidates, exact matching with near-miss rejection, exact prefix stripping, canary directory unchanged.',
+   'fish/zsh/pwsh by decoding only; curly quotes not generated; command names plain.',
+   'runtime monitoring: decode-and-compare oracle on string constants + execution in bash with a canary'),
+ 'C09': ('exploration',
+   '(a) every state of every compiled automaton is searched for two outgoing items with different targets that accept a common word; (b) the || grammar and its | variant are run in bash on the same command lines and must agree on return code, emptiness, subset and the minimal-branch clause. KF-B, KF-E, KF-G are recorded findings.',
+   '(a) under-approximates on paths through commands/placeholders inside words; branch indices for (b) from cgv/refsem.py.',
+   'runtime monitoring: invariant on dumped automata + metamorphic monitor (|| vs |) on bash executions'),
+ 'C11': ('exploration',
+   'The complete space of 1152 cases (32 definition subsets x 3 names x 3 reference positions x 4 targets) plus plain non-command PATH/DIRECTORY definitions is compiled; the rule is observed on the automaton\'s command symbols, on the command function bodies of the emitted script and, for bash, by execution in a scratch directory.',
+   'Built-in case for fish/zsh/pwsh judged as "one body that is none of the markers".',
+   'runtime monitoring: exhaustive rule oracle over probe dumps, emitted scripts and bash executions'),
+ 'C12': ('exploration',
+   'Value sets with prefix chains in within-word alternations are compiled and run in bash: every value as a complete word must be recognised, non-values not, every proper prefix must offer exactly the values extending it. KF-D (shorter value not recognised) is a recorded finding.',
+   'COMP_WORDBREAKS empty; the case the statement leaves open is recorded, not judged.',
+   'runtime monitoring: value-set oracle on bash executions'),
+ 'C16': ('exploration',
+   'The --dfa and --regex files written by the real binary are parsed with an independent DOT parser and compared with the automaton / regex dumped by cgprobe for the same grammar: node set per numbering base, start/accepting marks, one named edge per transition, clusters with entry/exit edges, every item as a regex node.',
+   'Graphviz is not installed: validity is judged by cgv/dotparse.py; labels compared by containment.',
+   'runtime monitoring: well-formedness + agreement oracle on the Graphviz files'),
+ 'C17': ('exploration',
+   'Probe commands log (id, $1, $2) per invocation; per command line an offline checker verifies that every invocation belongs to a command expected on the walk, that arguments follow the documented convention, that commands whose candidates are offered were invoked with exactly those arguments, and that COMPREPLY equals the reference answer (candidates with spaces, tabs, prefix chains). KF-A / KF-F recognised by exact signature.',
+   'bash 5.2; commands are harness functions called through the emitted wrappers.',
+   'runtime monitoring: offline checker over the invocation log + reference-model monitor on COMPREPLY'),
 }
 PENDING = {}
 
@@ -66,7 +94,7 @@ def main():
         },
         'engines': [{'name': 'cgv', 'path': '/verif/cgv', 'serves_properties': sorted(CHECKS),
                      'kind_free_text': 'Python monitors (generators, reference semantics, oracles) driving the real complgen binary, the cgprobe library probe and the emitted scripts in a real bash'},
-                    {'name': 'cgprobe', 'path': '/verif/probe', 'serves_properties': ['C02', 'C03', 'C04', 'C05', 'C06', 'C09', 'C10', 'C11', 'C16'],
+                    {'name': 'cgprobe', 'path': '/verif/probe', 'serves_properties': ['C02', 'C03', 'C04', 'C05', 'C06', 'C08', 'C09', 'C10', 'C11', 'C16'],
                      'kind_free_text': 'Rust binary linking /repo (feature verif) that runs the pipeline like src/main.rs and dumps what it produced as JSON; no checking logic'}],
         'checks': [],
         'not_applicable': [],
